@@ -407,7 +407,7 @@ reg("C16", needs_cli=True,
     rule="one input per case for one of twelve parsers (gob / CSV / JSON decoders, DecoderFor, HTTP and JSON target parsers, Buckets.UnmarshalText, the rate, header, max-body, connect-to and resolver-address flag parsers of the real vegeta process): "
          "10% random bytes, 10% valid documents, 10% valid documents of another format, 70% structured mutations of valid documents (bit flips, deletions, duplications, truncations, splices with another document, insertion / substitution from a dictionary "
          "of separators, blanks, quotes, huge numbers and length prefixes, blank-for-tab style replacements); decoders and targeters are called until they report an error (at most |input|+3 times) and twice more afterwards; @file lines are redirected "
-         "into a sandbox directory; every call runs under a 20 s limit with panics recovered and TotalAlloc measured (calls serialised); all cases non-trivial",
+         "into a sandbox directory; every call runs under a 6 s limit (calls are serialised, so the limit is not a load artefact; a parser that hung three times is not called again) with panics recovered and TotalAlloc measured (calls serialised); all cases non-trivial",
     clauses={1: "a parser call panicked", 2: "a parser call did not return within the time limit (hang)", 3: "a parser allocated more than 64 MiB + 1 KiB per input byte",
              4: "a parser yielded more values than its input can hold (it loops without consuming input)"},
     assumptions=["flag values travel to the vegeta process as JSON strings: inputs for the five flag parsers are valid UTF-8",
